@@ -16,12 +16,12 @@ import (
 )
 
 type node struct {
-	Op    string  `json:"op"`
-	Key   string  `json:"key"`
-	Cmp   string  `json:"cmp"`
-	Val   string  `json:"val"`
+	Op    string   `json:"op"`
+	Key   string   `json:"key"`
+	Cmp   string   `json:"cmp"`
+	Val   string   `json:"val"`
 	Vals  []string `json:"vals"`
-	Nodes []*node `json:"nodes"`
+	Nodes []*node  `json:"nodes"`
 }
 
 type tag struct {
@@ -119,6 +119,24 @@ func safeHash(f *protocol.FilterNode) (h [32]byte, pan any) {
 	return centrifuge.VerifFilterHash(f), nil
 }
 
+// pollute leaves a pooled marshal buffer of the size class Hash would use for a tree of `size` bytes filled with
+// `pad`, so that a hash depending on stale buffer contents differs between two calls (Hash takes its buffer from
+// internal/bpool, classes are powers of two).
+func pollute(size int, pad string) {
+	if size == 0 {
+		return
+	}
+	c := 1
+	for c < size {
+		c <<= 1
+	}
+	p := &protocol.FilterNode{Key: strings.Repeat(pad, c)}
+	for p.SizeVT() > c && len(p.Key) > 0 {
+		p.Key = p.Key[1:]
+	}
+	safeHash(p)
+}
+
 func table(in json.RawMessage, res *vh.Result) error {
 	var rows []row
 	if err := json.Unmarshal(in, &rows); err != nil {
@@ -150,6 +168,8 @@ func table(in json.RawMessage, res *vh.Result) error {
 		desc := fmt.Sprintf("tree=%s tags=%s", tkey, tagsKey)
 
 		// ---- Hash: equal for structurally equal trees, stable across calls and across Validate/Match
+		size := a.SizeVT()
+		pollute(size, "x")
 		h0, p0 := safeHash(a)
 		if p0 != nil {
 			res.Violate("C15", "hash:panic:"+nm, fmt.Sprintf("Hash panicked: %v on %s", p0, desc), r)
@@ -211,7 +231,9 @@ func table(in json.RawMessage, res *vh.Result) error {
 		}
 
 		// ---- Hash again (after the calls), on both builds
+		pollute(size, "y")
 		h1, p1 := safeHash(a)
+		pollute(size, "z")
 		h2, p2 := safeHash(b)
 		if p1 != nil || p2 != nil {
 			res.Violate("C15", "hash:panic:"+nm, fmt.Sprintf("Hash panicked on %s", desc), r)
